@@ -36,6 +36,7 @@ type Engine struct {
 	maxDepth int
 	callLog  []*CallRec // every call executed in the top frame (for @pattern and must-call)
 	siteHits map[*SiteSpec]int
+	sitePat  map[*SiteSpec]int
 	topFrame *Frame
 	rngCtr   int
 	safeCtr  map[string]int
@@ -100,6 +101,7 @@ type Frame struct {
 	inLoopHdr *ssa.BasicBlock
 	loopBody  map[*ssa.BasicBlock]map[*ssa.BasicBlock]bool
 	frameDone bool
+	appendStatic int
 	backEdgeN map[*ssa.BasicBlock]int
 	loopEntries map[*ssa.BasicBlock]*State
 	frameTs   []modTarget
@@ -423,6 +425,33 @@ func (fr *Frame) srcValue(name string) (ssa.Value, bool) {
 		}
 		if found != nil && okc {
 			return found, true
+		}
+	}
+	// otherwise: the reference that most closely dominates the current point
+	if cur := fr.curBlock; cur != nil {
+		depth := func(b *ssa.BasicBlock) int {
+			n := 0
+			for x := b; x != nil; x = x.Idom() {
+				n++
+			}
+			return n
+		}
+		var best *ssa.DebugRef
+		for _, d := range refs {
+			if d.Block() != cur && !d.Block().Dominates(cur) {
+				continue
+			}
+			if _, ok := fr.vals[d.X]; !ok {
+				if _, isConst := d.X.(*ssa.Const); !isConst {
+					continue
+				}
+			}
+			if best == nil || depth(d.Block()) > depth(best.Block()) || (d.Block() == best.Block() && d.Pos() > best.Pos()) {
+				best = d
+			}
+		}
+		if best != nil {
+			return best.X, true
 		}
 	}
 	return nil, false
@@ -802,6 +831,7 @@ func (fr *Frame) invariants(h *ssa.BasicBlock) []*Clause {
 }
 
 func (fr *Frame) enterLoop(h *ssa.BasicBlock, edges []edgeIn, dry bool) *State {
+	defer func() { fr.inLoopHdr = nil }()
 	e := fr.eng
 	vc := e.vc
 	entry := fr.mergeStates(edges)
@@ -954,6 +984,7 @@ func clauseID(c *Clause, k int) string {
 }
 
 func (fr *Frame) backEdge(h *ssa.BasicBlock, st *State, predIdx int, dry bool) {
+	defer func() { fr.inLoopHdr = nil }()
 	e := fr.eng
 	vc := e.vc
 	if dry {
